@@ -82,7 +82,7 @@ Lemma find_file_post cur k u s :
   | LErr e s' => post (RErr e s')
   end.
 Proof.
-  intros G. unfold find_file. pose proof (try_names_post s (probe_names (relative cur u) (cands k)) G) as T.
+  intros G. unfold find_file. pose proof (try_names_post s (find_names cur k u) G) as T.
   destruct (try_names orc s _) as [p id rd s1|s1|s1]; [|exact T|exact T].
   destruct T as (C & A & G1).
   destruct (negb (known_format p)); [exact I|].
